@@ -700,3 +700,29 @@ def _():
                 bad.append(f"{modname}.{suffix}")
     return ok, "field_modulus, modulus coefficients, degree and base classes of the 16 classes of py_ecc.fields; the curve modules use them" + \
         ("" if ok else " — wrong: " + ", ".join(bad[:6]))
+
+
+@evaluator("purity.import-order-state")
+def _():
+    """interpreter-wide state (recursion limit) after `import py_ecc` alone equals the state after importing every sub-module:
+    no result depends on which sub-packages happened to be imported earlier; and the limit is the 100000 that the recursive
+    multiply / __pow__ units take as their domain"""
+    import subprocess, sys as _sys, json as _json
+    code = (
+        "import sys, json\n"
+        "a = sys.getrecursionlimit()\n"
+        "import py_ecc\n"
+        "b = sys.getrecursionlimit()\n"
+        "import importlib\n"
+        "for m in ('py_ecc.fields', 'py_ecc.utils', 'py_ecc.secp256k1', 'py_ecc.bn128', 'py_ecc.optimized_bn128', 'py_ecc.bls12_381',\n"
+        "          'py_ecc.optimized_bls12_381', 'py_ecc.bls', 'py_ecc.bls.hash_to_curve', 'py_ecc.bls.point_compression',\n"
+        "          'py_ecc.optimized_bls12_381.optimized_clear_cofactor', 'py_ecc.optimized_bls12_381.optimized_swu'):\n"
+        "    importlib.import_module(m)\n"
+        "c = sys.getrecursionlimit()\n"
+        "print(json.dumps([a, b, c]))\n")
+    pr = subprocess.run([_sys.executable, "-c", code], capture_output=True, text=True, timeout=600)
+    try:
+        a, b, c = _json.loads(pr.stdout.strip().splitlines()[-1])
+    except Exception:
+        return False, "could not evaluate: " + (pr.stderr or pr.stdout)[-300:]
+    return (b == c and b >= 100000), f"recursion limit: fresh interpreter {a}, after `import py_ecc` {b}, after importing every sub-module {c}"
